@@ -172,6 +172,13 @@ def floor(tier):
     out.append(_case("mpfa", dict(prism), 951, "num_subproblems", 3, "nodes", 1, 0.5))
     out.append(_case("mpsa", dict(prism), 954, "num_subproblems", 3, "nodes", 1, 0.5))
     out.append(_case("biot", dict(prism, n=[3, 2, 1]), 953, "max_memory", 4, "cells", 2, 0.5))
+    # arbitrary node sets on hexahedral / quadrilateral / simplex grids
+    hexa = {"kind": "cart", "dim": 3, "n": [3, 2, 2], "phys": [1.5, 1.0, 1.0]}
+    out.append(_case("mpfa", dict(hexa), 961, "num_subproblems", 2, "nodes_random", 1, 0.5))
+    out.append(_case("mpsa", dict(hexa), 962, "num_subproblems", 2, "nodes_random", 1, 0.5))
+    out.append(_case("mpfa", dict(grids[0]), 963, "num_subproblems", 2, "nodes_random", 1, 0.5))
+    if tier == "thorough":
+        out.append(_case("biot", dict(hexa), 964, "max_memory", 3, "nodes_random", 1, 0.5))
     return out
 
 
@@ -182,7 +189,7 @@ def generate(rng, tier, i):
     return _case(discr, r, int(rng.integers(0, 2**31)),
                  str(rng.choice(["num_subproblems", "max_memory"])),
                  int(rng.integers(2, 9)),
-                 str(rng.choice(["nodes", "cells", "faces"])),
+                 str(rng.choice(["nodes", "nodes_random", "cells", "faces"])),
                  int(rng.integers(1, 5)),
                  float(rng.choice([0.3, 0.6, 0.9])))
 
@@ -402,7 +409,22 @@ def check(case, mon):
     mode = case["partial_mode"]
     patch = _patch(g, rng, case["npatch"])
     extra = {}
-    if mode == "nodes":
+    if mode == "nodes_random":
+        # an arbitrary node set (not the closure of a cell patch): faces with some but not
+        # all of their nodes selected must stay inactive
+        frac = float(rng.uniform(0.25, 0.7))
+        sel = np.flatnonzero(rng.random(g.num_nodes) < frac)
+        if sel.size == 0:
+            sel = np.array([int(rng.integers(0, g.num_nodes))])
+        extra["specified_nodes"] = sel
+        target_cells = None
+        fn = g.face_nodes.tocsc()
+        nsel = np.asarray(fn[sel].sum(axis=0)).ravel()
+        ntot = np.diff(fn.indptr)
+        mon.count("faces_with_some_but_not_all_nodes_selected",
+                  int(np.sum((nsel > 0) & (nsel < ntot))))
+        mon.count("faces_with_all_but_one_node_selected", int(np.sum(nsel == ntot - 1)))
+    elif mode == "nodes":
         ind = np.zeros(nc)
         ind[patch] = 1
         extra["specified_nodes"] = np.flatnonzero(g.cell_nodes() @ ind > 0)
@@ -435,6 +457,10 @@ def check(case, mon):
             mon.count("partial_active_face_rows", face_rows_nd.size)
             return face_rows_nd
         if m.shape[0] == nc:
+            if target_cells is None:
+                mon.excluded("cell-row matrices after an update on an arbitrary node set "
+                             "(no cell is named as target)")
+                return np.zeros(0, dtype=int)
             mon.count("partial_cell_rows", target_cells.size)
             return target_cells
         mon.inconclusive(f"unknown row kind of matrix {key}: {m.shape}")
